@@ -218,6 +218,17 @@ type NoJSONTagClaims struct {
 	Profile *string `cbor:"265,keyasint"`
 }
 
+// LookalikeKeyClaims has NO profile field, only fields whose CBOR keys merely
+// start with / contain the profile keys (2650, 26, -750001) and whose names
+// merely resemble "Profile".
+type LookalikeKeyClaims struct {
+	psatoken.IClaims
+	A        *string `cbor:"2650,keyasint,omitempty" json:"a-2650,omitempty"`
+	B        *string `cbor:"26,keyasint,omitempty" json:"b-26,omitempty"`
+	C        *string `cbor:"-750001,keyasint,omitempty" json:"c-750001,omitempty"`
+	Profiles *string `cbor:"-75100,keyasint,omitempty" json:"profiles,omitempty"`
+}
+
 // dynProfile: a profile of a given shape under an arbitrary name.
 type dynProfile struct {
 	name  string
@@ -235,6 +246,8 @@ func (d dynProfile) GetClaims() psatoken.IClaims {
 		return newOwnTagClaimsNamed(d.name)
 	case "no-profile-field":
 		return &NoProfClaims{}
+	case "lookalike-keys":
+		return &LookalikeKeyClaims{}
 	default:
 		return &NoJSONTagClaims{}
 	}
